@@ -163,11 +163,13 @@ def history_cases(seed, count, max_side, tag, thr=None):
                     o["thr"] = rng.choice(thr)
         single = all(o["k"] != "multi" for o in ops)
         midx = [j for j, o in enumerate(ops) if o["k"] == "multi"]
+        sidx = [j for j, o in enumerate(ops) if o["k"] == "mst"]
         configs = []
         for _ in range(rng.randint(2, 3)):
             z = gen.rand_field(rng, g, rng.choice(["tied", "tied", "tied3", "flat", "bowl", "ulp", "sub"]))
             mask, bl = gen.rand_mask_bl(rng, g, p_bl=0.25)
-            configs.append(dict(z=z, mask=mask, bl=bl, p=rng.choice([0, 4, 8])))
+            configs.append(dict(z=z, mask=mask, bl=bl, p=rng.choice([0, 4, 8]),
+                                mm=rng.choice(["kruskal", "boruvka"]), mr=rng.choice(["basic", "carve"])))
         if rng.random() < 0.5:   # same field under different base levels / masks
             configs[1]["z"] = configs[0]["z"]
 
@@ -178,6 +180,10 @@ def history_cases(seed, count, max_side, tag, thr=None):
             st.append(dict(op="bl", g=gid, bl=bl))
             if midx:
                 st.append(dict(op="param", g=gid, i=midx[-1], p=c["p"]))
+            if sidx:
+                # both members of the spanning-tree operator are public (read-write in the bindings);
+                # a later multi router makes "basic" undefined for C01 but not for purity
+                st.append(dict(op="param", g=gid, i=sidx[-1], m=c["mm"], r=c["mr"]))
             st.append(dict(op="update", g=gid, z=c["z"]))
             if full or rng.random() < 0.5:
                 st.append(dict(op="acc", g=gid, src=[1] * n))
@@ -196,6 +202,9 @@ def history_cases(seed, count, max_side, tag, thr=None):
             fops = copy.deepcopy(ops)
             for j in midx:
                 fops[j]["p"] = c["p"] if j == midx[-1] else fops[j]["p"]
+            if sidx:
+                fops[sidx[-1]]["m"] = c["mm"]
+                fops[sidx[-1]]["r"] = c["mr"]
             steps.append(dict(op="new", g=fi, ops=fops))
             steps += [dict(op="mask", g=fi, m=c["mask"]), dict(op="bl", g=fi, bl=sorted(c["bl"])),
                       dict(op="update", g=fi, z=c["z"]), dict(op="acc", g=fi, src=[1] * n)]
